@@ -52,6 +52,15 @@ CHECKS = {
              'inverse-consistency and a reference model are asserted after the operation. Bounded, not a proof.',
         note='Keys/values interact with the code only through ==/hash; CrossHair path exhaustion and z3 are trusted; pre-states larger than the bound are outside the claim.',
         ref='C17'),
+    'C20': dict(
+        technique='bounded symbolic execution (CrossHair/z3) of the real ThresholdCounter against an exact Counter, key stream symbolic; '
+                  'plus z3 bounded model checking of a transition relation generated from the AST of ThresholdCounter.add for the size bound',
+        text='For six thresholds (floor(1/t) = 1..5) every equality pattern of a stream of up to 7 keys, delivered by add / update(list) / '
+             'update(iterator) / update(mapping) / update(**kw) / mixed, is explored to exhaustion; after every call total, the per-key '
+             'never-over / bounded-under count law, presence of frequent keys, the size bound, common+uncommon == total and the '
+             'items/keys/values/elements/most_common views are checked against the exact counts. Bounded model checking.',
+        note='Trusted: CrossHair/z3, the exact Counter oracle. Outside: longer streams (for the E1 clauses), other thresholds.',
+        ref='C20'),
 }
 NOT_APPLICABLE = []
 ALL = ['C%02d' % i for i in range(1, 21)]
